@@ -19,7 +19,7 @@ open Mpd Mpd.Loop
 theorem C18_password_first (s : St) (rf : Bool) (pw v rest : Bytes)
     (hpc : s.pc = .connecting) (hpw : s.password = some pw) (hav : s.avail ≠ [])
     (hg : Parser.greeting (s.buf ++ s.avail) = .ok v rest) (hw : s.werr = none) :
-    ∃ s', step s rf = some s' ∧ s'.obs = s.obs ++ [.wrote pw] ∧ s'.pc = .pwWait .initial ∧ s'.version = v := by
+    ∃ s', step s rf = some s' ∧ s'.obs = s.obs ++ [.wrote pw .password] ∧ s'.pc = .pwWait .initial ∧ s'.version = v := by
   have hne : s.avail.isEmpty = false := by cases h : s.avail <;> simp_all
   unfold step
   rw [hpc]
@@ -56,7 +56,7 @@ def Received (s : St) (σ : Builder.BState) (r : Builder.Response) : Prop :=
 theorem C18_pwWait_step (s s' : St) (rf : Bool) (σ : Builder.BState) (hpc : s.pc = .pwWait σ)
     (h : step s rf = some s') :
     -- nothing is written
-    (∀ b, Obs.wrote b ∉ s'.obs.drop s.obs.length) ∧
+    (∀ b k, Obs.wrote b k ∉ s'.obs.drop s.obs.length) ∧
     -- still waiting, or accepted by a complete error-free reply, or failed
     ((∃ σ', s'.pc = .pwWait σ' ∧ s'.obs = s.obs) ∨
      (s'.pc = .spawned ∧ (∃ r, Received s σ r ∧ r.error = none) ∧ s'.obs = s.obs ++ [.connected (.ok s.version)]) ∨
@@ -106,7 +106,7 @@ theorem C18_rejected (s' : St) (rf : Bool) (h : s'.pc = .failed) : step s' rf = 
 
 /-- the first `idle` is written from `spawned`, i.e. after the verdict (or when no password is used) -/
 theorem C18_idle_after_accept (s : St) (rf : Bool) (hpc : s.pc = .spawned) (hw : s.werr = none) :
-    step s rf = some { (emit s (.wrote IDLE)) with pc := .idling s.bstash, fresh := true } := by
+    step s rf = some { (emit s (.wrote IDLE .idle)) with pc := .idling s.bstash, fresh := true } := by
   unfold step; rw [hpc]; simp [write, hw, emit]
 
 end Mpd.C18
